@@ -122,6 +122,18 @@ func asciiLower(s string) string {
 	return string(b)
 }
 
+// oneLine replaces CR and LF by spaces: an error reply is a single line, and a command
+// name containing CR LF would otherwise be written as more than one reply.
+func oneLine(s string) string {
+	b := []byte(s)
+	for i, c := range b {
+		if c == '\r' || c == '\n' {
+			b[i] = ' '
+		}
+	}
+	return string(b)
+}
+
 func (p *redisProc) Start() error {
 	// TODO(kirk91): use errgroup to cooridnate different goroutines.
 	p.wg.Add(1)
@@ -209,7 +221,7 @@ func (p *redisProc) handleRequest(req *rawRequest) {
 	hdlr, ok := p.findHandler(cmd)
 	if !ok {
 		// unsupported command
-		req.SetResponse(newError(fmt.Sprintf("ERR unsupported command '%s'", cmd)))
+		req.SetResponse(newError(fmt.Sprintf("ERR unsupported command '%s'", oneLine(cmd))))
 		return
 	}
 
